@@ -457,11 +457,16 @@ func frameOrRepeat(t *rapid.T, s Stream, maxLen int) []byte {
 // the same short junk and the same short frame over and over, so the stream is periodic and stays small
 // when written out.  Counters and buffers that only misbehave after thousands of transitions are reached
 // this way; it returns the segments (nil otherwise).
+// Counted switches the mebibyte runs of differing frames on.  Only the packages that look at the stream
+// handler alone (C01, C02, C03, C12) set it: a hundred thousand messages pushed through decoding, display,
+// log files or a timing-sensitive oracle would turn those checks' watchdogs into load meters.
+var Counted bool
+
 func MaybeManyPairs(t *rapid.T) []Segment {
 	if rapid.IntRange(0, 149).Draw(t, "manyPairs") != 77 {
 		return nil
 	}
-	if rapid.IntRange(0, 2).Draw(t, "countedFrames") == 1 {
+	if Counted && rapid.IntRange(0, 2).Draw(t, "countedFrames") == 1 {
 		// more than a mebibyte (sometimes more than two) of frames that all differ
 		l := rapid.SampledFrom([]int{11, 120, 1021}).Draw(t, "countedLen")
 		total := rapid.SampledFrom([]int{1<<20 + 70000, 2<<20 + 70000}).Draw(t, "countedBytes")
